@@ -210,7 +210,7 @@ MANIFEST = {
     'engine': 'E2',
     'technique': 'symbolic execution of the TransverseMercator constructor IR over z3 reals (all feasible paths); polynomial identities in n against the order-8 tables, the AuxLatitude tables and the first-principles rectifying radius',
     'text': 'Bounded solver verdicts on the real code: the Krueger coefficients alpha_j, beta_j (two 27-entry tables) and b1 computed by the TransverseMercator constructor are obtained by symbolic execution of the IR for symbolic n '
-            'and z3 decides equality with three independent sources (order-8 tables, AuxLatitude C[mu,chi]/C[chi,mu], first-principles meridian series). A wrong coefficient, divisor or offset is refuted with a concrete n replayed on a g++ build.',
-    'note': 'Exact-real semantics, order 6 as compiled. Forward/Reverse round trip to nanometres, series-vs-exact agreement, TransverseMercatorExact Newton inversions and parity/back-side handling are not decided by these obligations. '
+            'and z3 decides equality with three independent sources (order-8 tables, AuxLatitude C[mu,chi]/C[chi,mu], first-principles meridian series). A wrong coefficient, divisor or offset is refuted with a concrete n replayed on a g++ build. TransverseMercator::Reverse (series): mirroring a point in the central meridian or the equator changes only the documented signs, incl. far-side points (two symbolic runs compared).',
+    'note': 'Exact-real semantics, order 6 as compiled. Forward/Reverse round trip to nanometres, series-vs-exact agreement, TransverseMercatorExact and the Forward parity/back-side handling are not decided by these obligations. '
             'Trusted: clang-14, vfw/irparse+rsym (validated each run against the native build), z3, vfw/series.py.',
 }
